@@ -6,7 +6,15 @@
 //	shape  s=..,m=..,...            sizes of the path's attributes (usx.Shape)
 //	runs   len*count,len*count,...  the queued prefixes in queue order; the i-th prefix of a length has index i
 //
+//	real=k0.k1...  (optional 5th token) run the REAL sender goroutine (UpdateSender.Start) against a connection whose
+//	               Write blocks until released: k0 prefixes are queued before the goroutine starts, k1 while it is
+//	               blocked in its first Write, k2 in the second ...; what is left when it has nothing more to write
+//	               is queued while it is stopped, then it is started again
+//
 // Observation:    budget=<B> split=<n1.n2..|-> wire=<L:n:h/...|-> attrs=<ok|..> pid=<ok|bad>
+//
+//	with real=:  q<a>-<b> (prefixes a..b-1 of the queue order queued)  B (goroutine blocked in a Write)
+//	             m<L:n:h> (that Write completed)  ...  attrs=.. pid=..
 //
 //	split  prefixes per UPDATE as _getUpdateInformation packed them
 //	wire   per UPDATE written: total length, number of NLRI, hash of the NLRI in wire order
@@ -21,6 +29,7 @@ import (
 	"sync/atomic"
 
 	"github.com/bio-routing/bio-rd/protocols/bgp/server"
+	"github.com/bio-routing/bio-rd/route"
 
 	"verifharness/hx"
 	"verifharness/usx"
@@ -36,6 +45,7 @@ type tcase struct {
 	sh   usx.Shape
 	pid  uint32
 	runs []run
+	real []int // chunk sizes for the real sender goroutine stream (nil: hook-driven)
 }
 
 func (t tcase) String() string {
@@ -43,12 +53,31 @@ func (t tcase) String() string {
 	for i, r := range t.runs {
 		rs[i] = fmt.Sprintf("%d*%d", r.l, r.n)
 	}
-	return fmt.Sprintf("%s %s pid=%d %s", t.cfg, t.sh, t.pid, strings.Join(rs, ","))
+	s := fmt.Sprintf("%s %s pid=%d %s", t.cfg, t.sh, t.pid, strings.Join(rs, ","))
+	if t.real != nil {
+		ks := make([]string, len(t.real))
+		for i, k := range t.real {
+			ks[i] = strconv.Itoa(k)
+		}
+		s += " real=" + strings.Join(ks, ".")
+	}
+	return s
 }
 
 func parseCase(in string) (tcase, error) {
 	var t tcase
 	f := strings.Fields(in)
+	if len(f) == 5 && strings.HasPrefix(f[4], "real=") {
+		t.real = []int{}
+		for _, k := range strings.Split(f[4][5:], ".") {
+			n, err := strconv.Atoi(k)
+			if err != nil || n < 0 {
+				return t, fmt.Errorf("bad real token %q", f[4])
+			}
+			t.real = append(t.real, n)
+		}
+		f = f[:4]
+	}
 	if len(f) != 4 {
 		return t, fmt.Errorf("want 4 tokens, got %d", len(f))
 	}
@@ -126,33 +155,8 @@ func nlriHash(ns []usx.NLRI) uint64 {
 	return h
 }
 
-func runCase(t tcase) (obs, sig, detail string, nt bool) {
-	cap := &usx.Capture{}
-	us := server.VerifUSNew(t.cfg.Options(), cap)
-	p := usx.BuildPath(t.cfg, t.sh, 7, t.pid)
-	pfxs := t.prefixes()
-	for _, x := range pfxs {
-		us.AddPath(x.Net(), p)
-	}
-	budget := us.Budget(p)
-	keys := us.Keys()
-	if len(pfxs) > 0 && len(keys) != 1 {
-		return fmt.Sprintf("keys=%d", len(keys)), "one-path-queued-under-several-keys", fmt.Sprintf("%d keys", len(keys)), false
-	}
-	var split []string
-	nsplit := 0
-	if len(keys) == 1 {
-		b := us.Dequeue(keys[0])
-		for _, s := range b.Split() {
-			split = append(split, strconv.Itoa(len(s)))
-		}
-		nsplit = len(b.Split())
-		for us.EmitOne(b) {
-		}
-	}
-	chunks := cap.Take()
-
-	oracle := attrEstimate(t.sh) <= 3900 // a single NLRI certainly fits next to the attributes
+// judge evaluates the property's statement on the written messages (nsplit < 0: number of packed UPDATEs unknown)
+func judge(t tcase, p *route.Path, pfxs []usx.Pfx, chunks [][]byte, nsplit int, oracle bool) (sig, detail, wireS, attrs, pidok string) {
 	fail := func(s, d string) {
 		if sig == "" && oracle {
 			sig, detail = s, d
@@ -160,7 +164,7 @@ func runCase(t tcase) (obs, sig, detail string, nt bool) {
 	}
 	want := usx.ExpectedAttrs(t.cfg, p)
 	seen := map[usx.Pfx]int{}
-	attrs, pidok := "ok", "ok"
+	attrs, pidok = "ok", "ok"
 	var wire []string
 	for i, ch := range chunks {
 		u, err := usx.DecodeUpdate(ch, t.cfg)
@@ -196,7 +200,7 @@ func runCase(t tcase) (obs, sig, detail string, nt bool) {
 			}
 		}
 	}
-	if len(chunks) < nsplit {
+	if nsplit >= 0 && len(chunks) < nsplit {
 		fail("update-refused-too-long", fmt.Sprintf("%d of %d packed UPDATEs were not written", nsplit-len(chunks), nsplit))
 	}
 	for _, x := range pfxs {
@@ -211,13 +215,130 @@ func runCase(t tcase) (obs, sig, detail string, nt bool) {
 	if len(seen) > 0 {
 		fail("unqueued-prefix-announced", fmt.Sprintf("%d prefixes", len(seen)))
 	}
+	wireS = "-"
+	if len(wire) > 0 {
+		wireS = strings.Join(wire, "/")
+	}
+	return
+}
+
+// runReal: the same property on the real sender goroutine
+func runReal(t tcase) (obs, sig, detail string, nt bool) {
+	g := usx.NewGate()
+	us := server.VerifUSNew(t.cfg.Options(), g)
+	real := usx.NewReal(us, g)
+	p := usx.BuildPath(t.cfg, t.sh, 7, t.pid)
+	pfxs := t.prefixes()
+	var ev []string
+	next, ci, blockedAdds := 0, 0, false
+	queue := func() {
+		k := len(pfxs) - next
+		if ci < len(t.real) && t.real[ci] < k {
+			k = t.real[ci]
+		}
+		ci++
+		if k > 0 {
+			ev = append(ev, fmt.Sprintf("q%d-%d", next, next+k))
+			for _, x := range pfxs[next : next+k] {
+				us.AddPath(x.Net(), p)
+			}
+			next += k
+		}
+	}
+	var chunks [][]byte
+	stalled := ""
+	queue()
+	for stalled == "" {
+		if len(us.Keys()) == 0 {
+			if next >= len(pfxs) {
+				break
+			}
+			queue()
+			continue
+		}
+		if real.Rounds > 500 {
+			stalled = "queue not drained after 500 rounds"
+			break
+		}
+		real.Start()
+		for {
+			m, err := real.Next()
+			if err != nil {
+				real.Abandon()
+				stalled = err.Error()
+				break
+			}
+			if m == nil {
+				break
+			}
+			ev = append(ev, "B")
+			if next < len(pfxs) {
+				blockedAdds = true
+			}
+			queue()
+			g.Release()
+			for _, ch := range g.Take() {
+				chunks = append(chunks, ch)
+				if u, err := usx.DecodeUpdate(ch, t.cfg); err == nil {
+					ev = append(ev, fmt.Sprintf("m%d:%d:%d", u.Len, len(u.Announced), nlriHash(u.Announced)))
+				} else {
+					ev = append(ev, fmt.Sprintf("m%d:ERR:0", len(ch)))
+				}
+			}
+		}
+	}
+	oracle := attrEstimate(t.sh) <= 3900
+	wire, attrs, pidok := "", "", ""
+	sig, detail, wire, attrs, pidok = judge(t, p, pfxs, chunks, -1, oracle)
+	_ = wire
+	if stalled != "" {
+		ev = append(ev, "STALLED")
+		if oracle {
+			sig, detail = "sender-stalled", stalled
+		}
+	}
+	obs = strings.Join(ev, " ") + fmt.Sprintf(" attrs=%s pid=%s", attrs, pidok)
+	return obs, sig, detail, oracle && blockedAdds
+}
+
+func runCase(t tcase) (obs, sig, detail string, nt bool) {
+	if t.real != nil {
+		return runReal(t)
+	}
+	cap := &usx.Capture{}
+	us := server.VerifUSNew(t.cfg.Options(), cap)
+	p := usx.BuildPath(t.cfg, t.sh, 7, t.pid)
+	pfxs := t.prefixes()
+	for _, x := range pfxs {
+		us.AddPath(x.Net(), p)
+	}
+	budget := us.Budget(p)
+	keys := us.Keys()
+	if len(pfxs) > 0 && len(keys) != 1 {
+		return fmt.Sprintf("keys=%d", len(keys)), "one-path-queued-under-several-keys", fmt.Sprintf("%d keys", len(keys)), false
+	}
+	var split []string
+	nsplit := 0
+	if len(keys) == 1 {
+		b := us.Dequeue(keys[0])
+		for _, s := range b.Split() {
+			split = append(split, strconv.Itoa(len(s)))
+		}
+		nsplit = len(b.Split())
+		for us.EmitOne(b) {
+		}
+	}
+	chunks := cap.Take()
+
+	oracle := attrEstimate(t.sh) <= 3900 // a single NLRI certainly fits next to the attributes
+	sig, detail, wireS, attrs, pidok := judge(t, p, pfxs, chunks, nsplit, oracle)
 	j := func(xs []string, sep string) string {
 		if len(xs) == 0 {
 			return "-"
 		}
 		return strings.Join(xs, sep)
 	}
-	obs = fmt.Sprintf("budget=%d split=%s wire=%s attrs=%s pid=%s", budget, j(split, "."), j(wire, "/"), attrs, pidok)
+	obs = fmt.Sprintf("budget=%d split=%s wire=%s attrs=%s pid=%s", budget, j(split, "."), wireS, attrs, pidok)
 	return obs, sig, detail, oracle && nsplit >= 2
 }
 
@@ -355,7 +476,24 @@ func main() {
 		}
 		rng := hx.NewRNG(cfg.Seed)
 		for i := 0; i < cfg.N; i++ {
-			jobs = append(jobs, job{fmt.Sprintf("g%d", i), genCase(rng.Fork(uint64(i)), tr)})
+			r := rng.Fork(uint64(i))
+			t := genCase(r, tr)
+			if i%4 == 3 { // every fourth case goes to the real sender goroutine
+				tr.Count("stream_real")
+				total := 0
+				for _, ru := range t.runs {
+					total += ru.n
+				}
+				t.real = []int{1 + r.Intn(total)}
+				for k, n := 0, r.Intn(6); k < n; k++ {
+					if r.Bool() {
+						t.real = append(t.real, r.Intn(40))
+					} else {
+						t.real = append(t.real, r.Intn(1+total/2))
+					}
+				}
+			}
+			jobs = append(jobs, job{fmt.Sprintf("g%d", i), t})
 		}
 	}
 	// the cases are independent: run them on a few workers, report in order
